@@ -22,7 +22,19 @@ def build(chk, sc, repo, tool):
     shutil.copy(os.path.join(src, "common_test.go.txt"), os.path.join(d, "zz_verif_common_test.go"))
     shutil.copy(os.path.join(src, tool + "_test.go.txt"), os.path.join(d, "zz_verif_%s_test.go" % tool))
     binp = os.path.join(sc.dir, tool + ".test")
+    opt = os.path.join(src, tool + "_1e8w_test.go.txt")
+    optdst = os.path.join(d, "zz_verif_%s_1e8w_test.go" % tool)
+    if os.path.exists(opt):
+        shutil.copy(opt, optdst)
     rc, o = chk.run([chk.GO, "test", "-c", "-o", binp, "./tools/" + tool], cwd=repo)
+    if rc != 0 and os.path.exists(opt):
+        # the optional part refers to functions of the tool by name (worker_1E8, resultWriter): when the working
+        # tree no longer has them in that shape, build with the stub; those cases are then counted as unobservable
+        shutil.copy(os.path.join(src, tool + "_1e8w_stub_test.go.txt"), optdst)
+        rc2, o2 = chk.run([chk.GO, "test", "-c", "-o", binp, "./tools/" + tool], cwd=repo)
+        if rc2 == 0:
+            print("warning: the 10^8-scale worker function could not be driven directly (built with a stub):\n" + "\n".join(o.splitlines()[:6]))
+            return binp
     if rc != 0:
         chk.die("tool-sim engine for %s does not build against the instrumented copy of the working tree:\n%s" % (tool, o))
     return binp
